@@ -51,9 +51,18 @@ class Decode:
     def root_place(self, F, place, depth=0):
         """canonical (base, path): base = parameter index or ('l', n); path = tuple of field names."""
         l = place["l"]
-        path = tuple(e[2] for e in place["p"] if isinstance(e, list) and e[0] == "f")
-        if any(isinstance(e, list) and e[0] in ("i", "ci", "sub", "d") for e in place["p"]):
-            path = path + ("#",)
+        path = ()
+        for e in place["p"]:
+            if not isinstance(e, list):
+                continue
+            if e[0] == "f":
+                path += (e[2],)
+            elif e[0] == "ci":
+                path += ("#%s%s" % ("-" if e[2] else "", e[1]),)
+            elif e[0] == "i":
+                path += ("#[%s]" % self.show(self.expr(F, {"c": {"l": e[1], "p": []}}, depth + 1)),)
+            elif e[0] in ("sub", "d"):
+                path += ("#" + str(e[1:]),)
         if 1 <= l <= F.arg_count:
             return (l, path)
         d = self.single_def(F, l)
